@@ -1472,6 +1472,36 @@ sec_oaep(const rkey *k, const impl_t *m)
 				}
 			}
 			free(dst); free(src); free(lb);
+			/* the same with the message inside the destination buffer ("the source message may overlap with the
+			   destination buffer"): at its start, one byte in, behind the label hash, at its final place, at the end */
+			if (mlen > 0) {
+				size_t offs[5], oi;
+				offs[0] = 0; offs[1] = 1; offs[2] = (size_t)h->hlen + 1; offs[3] = nlen - mlen; offs[4] = (nlen - mlen) / 2;
+				for (oi = 0; oi < 5; oi ++) {
+					size_t off = offs[oi];
+					if (off + mlen > nlen) continue;
+					dst = xmalloc(nlen);
+					vf_bytes(&R, dst, nlen);
+					memcpy(dst + off, msg, mlen);
+					r = m->oenc(&dc.vtable, h->bc, llen ? label : NULL, llen, &pv.pk, dst, nlen, dst + off, mlen);
+					CMP("oaep_encrypt_in_place");
+					if (r != nlen) {
+						rviol("C10:oaep:encrypt-failed", "oaep_encrypt (message inside the destination buffer) did not return the modulus length",
+							"%s hash=%s llen=%u mlen=%u off=%u r=%u", g_ctx, h->name, (unsigned)llen, (unsigned)mlen, (unsigned)off, (unsigned)r);
+					} else {
+						EVP_PKEY_CTX *c = oaep_ctx(k, 0, h, label, llen);
+						size_t ol = nlen;
+						int v = EVP_PKEY_decrypt(c, msg2, &ol, dst, nlen);
+						EVP_PKEY_CTX_free(c);
+						if (v != 1 || ol != mlen || memcmp(msg2, msg, mlen) != 0) {
+							ERR_clear_error();
+							rviol("C10:oaep:in-place-message-corrupted", "OAEP encryption of a message that lies inside the destination buffer does not decrypt to that message",
+								"%s hash=%s llen=%u mlen=%u off=%u v=%d", g_ctx, h->name, (unsigned)llen, (unsigned)mlen, (unsigned)off, v);
+						}
+					}
+					free(dst);
+				}
+			}
 			/* too long a message, too small a destination */
 			src = xmalloc((size_t)maxm + 1);
 			vf_bytes(&R, src, (size_t)maxm + 1);
